@@ -3,7 +3,7 @@
    Only statements + `exact`; proofs in Netlist/IterCorrect.v, IterComplete.v,
    SanityCorrect.v, SanityGen.v, Accepted.v. *)
 From PyRTL Require Import Netlist.Sanity Netlist.IterCorrect Netlist.SanityCorrect Netlist.Accepted.
-From PyRTL Require Import Netlist.IterComplete.
+From PyRTL Require Import Netlist.IterComplete Netlist.IterSinks.
 From Coq Require Import Permutation.
 
 (* Whatever the schedule (oracle = the sequence of to_clear.pop() choices): if
@@ -211,6 +211,42 @@ Example C10_example_comb_driven_register :
   /\ topo_sortedb ex_regdrv (nets ex_regdrv) = true
   /\ accepted ex_regdrv [] = true /\ iterate ex_regdrv [1]%nat = IKeyError.
 Proof. vm_compute. repeat split; reflexivity. Qed.
+
+(* ---- the sink table of Block.net_connections (what `for gate in dest_dict[wire]` walks) ----
+   The iterator of the theorems above is the table-parametric iterator instantiated with
+   `readers`; `readers` lists exactly the nets that read the wire, each ONCE however often
+   the wire occurs among a net's arguments (the `set(net.args)` of net_connections; compared
+   with the real table on every generated design by py/checks/C10.py). *)
+Theorem C10_iter_is_table_iterator : forall nl oracle,
+  iterate_with readers nl oracle = iterate nl oracle.
+Proof. exact iterate_with_readers. Qed.
+Print Assumptions C10_iter_is_table_iterator.
+
+Theorem C10_sink_table_lists_each_reader_once : forall (l : list net) w,
+  NoDup (map fst (readers (number 0 l) w))
+  /\ (forall i n, In (i, n) (readers (number 0 l) w) <->
+                  In (i, n) (number 0 l) /\ mem_in w (nargs n) = true).
+Proof. intros l w. split; [exact (readers_once l w)|exact (readers_exactly_the_reading_nets l w)]. Qed.
+Print Assumptions C10_sink_table_lists_each_reader_once.
+
+(* That "once" is needed: with a table that only collapses ADJACENT repetitions of a wire,
+   o <<= concat(a, b, a) -- which passes the model of sanity_check, has no combinationally
+   driven register and has a dependency order -- raises "Cannot Iterate through malformed
+   block" under the schedule that clears b first and iterates under the other one; with
+   `readers` it iterates under both (completeness theorem above). *)
+Theorem C10_sinks_listed_twice_refuted :
+  sanity_block ex_aba = true /\ comb_dest_not_reg ex_aba = true
+  /\ topo_sortedb ex_aba (nets ex_aba) = true
+  /\ (exists l, iterate ex_aba [1]%nat = IOk l)
+  /\ iterate_with readers_adjacent ex_aba [1]%nat = IKeyError
+  /\ (exists l, iterate_with readers_adjacent ex_aba [0]%nat = IOk l).
+Proof. exact sinks_listed_twice_refuted. Qed.
+Print Assumptions C10_sinks_listed_twice_refuted.
+
+Example C10_example_adjacent_repeats_harmless :
+  iterate_with readers_adjacent ex_aab [1; 0; 2]%nat = iterate ex_aab [1; 0; 2]%nat
+  /\ (exists l, iterate ex_aab [1; 0; 2]%nat = IOk l).
+Proof. exact adjacent_repeats_agree. Qed.
 
 (* ------------------------------------------------------------------------------
    Everything below depends on Gen/SanityNet.v, which is REGENERATED from the current
